@@ -142,6 +142,8 @@ func pathBody(pc pathCfg, k int, gap time.Duration) func() {
 			}
 			if gap > 0 {
 				simrt.RunFor(gap)
+			} else if gap == 0 {
+				simrt.Quiesce() // messages are separated in time: spawned timer goroutines get to run
 			}
 			e.C.HandleIncomingWebsocketMessage(pc.msgs[i])
 		}
@@ -198,7 +200,11 @@ func scenarios(r *hx.Run) []hx.Scenario {
 	}
 	for _, pc := range paths() {
 		for k := 0; k <= len(pc.msgs); k++ {
-			for _, gap := range []time.Duration{0, time.Second} {
+			gaps := []time.Duration{0, time.Second}
+			if k <= 3 {
+				gaps = append(gaps, -1) // burst: the first messages arrive back to back, no goroutine gets to run in between
+			}
+			for _, gap := range gaps {
 				ppb := 1
 				if r.Thorough() {
 					ppb = 2
